@@ -235,6 +235,18 @@ if prop == 'C10':
         else: text = 'let inherit (s) %s; in { x = %s; }' % (asked, asked); want = 'RESERR'
         got = ires(text + '\n'); count('inherit/%s/%s' % (tpl, 'refuse' if want == 'RESERR' else 'value'))
         if got != want: viol.append({'doc': text, 'path': ['x'], 'what': 'inherit: Nix gives %s, resolution gives %s' % (want, got)})
+# ---- references fetched through the scope mapping (mutation probe: Scope.__getitem__ attaching the context had no observer):
+# a let binding whose value is a name, looked up with expr.scope[name], resolves among the bindings of its own let (order-independent)
+if prop == 'C10':
+    for text, k, want in [('let a = 1; b = a; in { x = b; }', 'b', '1'), ('let b = a; a = 1; in { }', 'b', '1'), ('let b = zz; in { }', 'b', 'RESERR'),
+                          ('let a = b; b = a; in { }', 'a', 'RESERR'), ('let a = 2; b = a; c = b; in { }', 'c', '2'), ('{ p }: let a = 3; b = a; in { }', None, None)]:
+        if k is None: continue
+        count('scope-mapping-reference')
+        try:
+            x = parse(text + '\n').expr.scope[k]; r_ = x.value; got = r_.rebuild().strip() if hasattr(r_, 'rebuild') else repr(r_)
+        except ResolutionError: got = 'RESERR'
+        except Exception as ex: got = 'EXC:' + type(ex).__name__
+        if got != want: viol.append({'doc': text, 'path': ['<scope>', k], 'what': 'a reference fetched through the scope mapping resolves to %s, its own let gives %s' % (got, want)})
 # ---- stacked `with` environments and nothing else (fourth round of seeds): among withs the innermost one that has the name wins;
 # reached through the document-level item access, with an identifier or an attribute set as the body
 if prop == 'C10':
